@@ -273,8 +273,8 @@ PROPS.update({
         "needs": ["harness", "cli"],
         "technique": "exhaustive enumeration of degenerate record lists x subcommands at process level against the reference models",
         "parts": [hist_part("c16")],
-        "rule": "every list of 0..=2 (thorough 0..=3) records over 10 boundary shapes (empty, 1 base, k-1, k, k+1 / w-1, w, "
-                "all-N, N first / middle / last, ordinary) x 11 subcommand variants (oligo mmap / counts / stdin, cgr, "
+        "rule": "every list of 0..=2 (thorough 0..=3) records over a dozen boundary shapes (empty, 1 base, k-1, k, k+1 / w-1, w, "
+                "k-1 or w-1 bases closed by N, all-N, N first / middle / last, ordinary) x 11 subcommand variants (oligo mmap / counts / stdin, cgr, "
                 "k-mer cgr, cov, min s2m and m2s with w=0 and w>m, ctr) x threads (1,4) on the release binary; oracle: "
                 "exit 0 within 20 s (whole-sequence CGR may refuse non-nucleotide records), exactly one row per "
                 "record equal to the model's (all-zero / id only where nothing is computable), no placeholder "
